@@ -82,8 +82,7 @@ func runC20(c *Ctx) error {
 }
 
 // ------------------------------------------------------------------ delay.Publisher
-func c20Delay(r *tr.Run) int {
-	n := 0
+func c20Delay(r *tr.Run) (n int) {
 	srcs := []string{"meta", "ctx", "none"}
 	var batches [][]string
 	for _, a := range srcs {
@@ -97,6 +96,122 @@ func c20Delay(r *tr.Run) int {
 	}
 	genDelay := 11 * time.Second
 	ctxVariants := []string{"for", "until-future", "until-past", "for-zero"}
+	ctxDur := map[string]time.Duration{"for": 7 * time.Second, "until-future": 90 * time.Minute, "until-past": -3 * time.Second, "for-zero": 0}
+	// build makes the messages of a batch; for a message with a context delay it also notes the stamp that delay stands for
+	// (what delay.Message writes for it): the Publisher has to write exactly that, whenever the message is published
+	build := func(batch []string, ctxKind string) ([]*message.Message, map[int][2]string) {
+		var msgs []*message.Message
+		stamps := map[int][2]string{}
+		ctxFor := ctxDur[ctxKind]
+		for i, s := range batch {
+			m := message.NewMessage(fmt.Sprintf("d%d", i), []byte("x"))
+			switch s {
+			case "meta":
+				delay.Message(m, delay.For(5*time.Minute))
+			case "ctx":
+				d := delay.For(ctxFor)
+				if ctxKind == "until-future" || ctxKind == "until-past" {
+					d = delay.Until(time.Now().UTC().Add(ctxFor))
+				}
+				m.SetContext(delay.WithContext(context.Background(), d))
+				scratch := message.NewMessage("scratch", nil)
+				delay.Message(scratch, d)
+				stamps[i] = [2]string{scratch.Metadata.Get(delay.DelayedForKey), scratch.Metadata.Get(delay.DelayedUntilKey)}
+			}
+			msgs = append(msgs, m)
+		}
+		return msgs, stamps
+	}
+	pubAndJudge := func(dp message.Publisher, ip *scripted.Pub, msgs []*message.Message, stamps map[int][2]string, batch []string, ctxKind string, cfg map[string]any) {
+		ctxFor := ctxDur[ctxKind]
+		before := time.Now().UTC()
+		perr := dp.Publish("topic", msgs...)
+		after := time.Now().UTC()
+		calls := ip.Calls()
+		order := len(calls) == 1 && len(calls[0].Msgs) == len(msgs) && calls[0].Topic == "topic"
+		from := []string{}
+		agree := true
+		if order {
+			for i, m := range calls[0].Msgs {
+				if m != msgs[i] {
+					order = false
+				}
+				fs := m.Metadata.Get(delay.DelayedForKey)
+				us := m.Metadata.Get(delay.DelayedUntilKey)
+				if fs == "" && us == "" {
+					from = append(from, "nodelay")
+					continue
+				}
+				d, e1 := time.ParseDuration(fs)
+				u, e2 := time.Parse(time.RFC3339, us)
+				if e1 != nil || e2 != nil {
+					from = append(from, "unparsable")
+					agree = false
+					continue
+				}
+				f := "other"
+				switch {
+				case batch[i] == "meta" && d == 5*time.Minute:
+					f = "meta"
+				case d == genDelay && batch[i] == "none":
+					f = "gen"
+				case batch[i] == "ctx":
+					// For: exactly the configured duration; Until: the duration left when Until() was called
+					if (ctxKind == "for" || ctxKind == "for-zero") && d == ctxFor {
+						f = "ctx"
+					}
+					if (ctxKind == "until-future" || ctxKind == "until-past") && d <= ctxFor && d >= ctxFor-5*time.Second {
+						f = "ctx"
+					}
+				}
+				from = append(from, f)
+				// delayed-until minus delayed-for is the stamping instant (second resolution); metadata pre-set earlier is exempt
+				if f != "meta" {
+					inst := u.Add(-d)
+					if inst.Before(before.Add(-6*time.Second)) || inst.After(after.Add(2*time.Second)) {
+						agree = false
+					}
+				}
+				// the delay of the message context is stamped as it is: an Until deadline stays that deadline
+				if st, ok := stamps[i]; ok && f == "ctx" && (fs != st[0] || us != st[1]) {
+					agree = false
+				}
+			}
+		}
+		r.Emit("delaypub", "cfg", cfg, "batch", batch, "err", perr != nil, "calls", len(calls),
+			"order", order, "from", from, "agree", agree, "ctxkind", ctxKind)
+		n++
+	}
+	// messages whose context delay is made well before they are published (handler work, a retry, a queue in between):
+	// published at the end, more than a second later
+	type lateOne struct {
+		dp      message.Publisher
+		ip      *scripted.Pub
+		msgs    []*message.Message
+		stamps  map[int][2]string
+		batch   []string
+		ctxKind string
+	}
+	var late []lateOne
+	lateMade := time.Now()
+	for _, ck := range ctxVariants {
+		for _, batch := range [][]string{{"ctx"}, {"meta", "ctx", "none"}} {
+			ip := scripted.NewPub("inner")
+			dp, err := delay.NewPublisher(ip, delay.PublisherConfig{AllowNoDelay: true})
+			if err != nil {
+				r.Emit("error", "what", err.Error())
+				return n
+			}
+			msgs, stamps := build(batch, ck)
+			late = append(late, lateOne{dp, ip, msgs, stamps, batch, ck})
+		}
+	}
+	defer func() {
+		time.Sleep(time.Until(lateMade.Add(1100 * time.Millisecond)))
+		for _, lo := range late {
+			pubAndJudge(lo.dp, lo.ip, lo.msgs, lo.stamps, lo.batch, lo.ctxKind, map[string]any{"gen": "none", "allow": true, "inner": "accept"})
+		}
+	}()
 	for _, gen := range []string{"ok", "fail", "none"} {
 		for _, allow := range []bool{false, true} {
 			for _, inner := range []string{"accept", "error"} {
@@ -122,75 +237,9 @@ func c20Delay(r *tr.Run) int {
 						r.Emit("error", "what", err.Error())
 						return n
 					}
-					var msgs []*message.Message
 					ctxKind := ctxVariants[bi%len(ctxVariants)]
-					ctxFor := map[string]time.Duration{"for": 7 * time.Second, "until-future": 90 * time.Minute, "until-past": -3 * time.Second, "for-zero": 0}[ctxKind]
-					for i, s := range batch {
-						m := message.NewMessage(fmt.Sprintf("d%d", i), []byte("x"))
-						switch s {
-						case "meta":
-							delay.Message(m, delay.For(5*time.Minute))
-						case "ctx":
-							d := delay.For(ctxFor)
-							if ctxKind == "until-future" || ctxKind == "until-past" {
-								d = delay.Until(time.Now().UTC().Add(ctxFor))
-							}
-							m.SetContext(delay.WithContext(context.Background(), d))
-						}
-						msgs = append(msgs, m)
-					}
-					before := time.Now().UTC()
-					perr := dp.Publish("topic", msgs...)
-					after := time.Now().UTC()
-					calls := ip.Calls()
-					order := len(calls) == 1 && len(calls[0].Msgs) == len(msgs) && calls[0].Topic == "topic"
-					from := []string{}
-					agree := true
-					if order {
-						for i, m := range calls[0].Msgs {
-							if m != msgs[i] {
-								order = false
-							}
-							fs := m.Metadata.Get(delay.DelayedForKey)
-							us := m.Metadata.Get(delay.DelayedUntilKey)
-							if fs == "" && us == "" {
-								from = append(from, "nodelay")
-								continue
-							}
-							d, e1 := time.ParseDuration(fs)
-							u, e2 := time.Parse(time.RFC3339, us)
-							if e1 != nil || e2 != nil {
-								from = append(from, "unparsable")
-								agree = false
-								continue
-							}
-							f := "other"
-							switch {
-							case batch[i] == "meta" && d == 5*time.Minute:
-								f = "meta"
-							case d == genDelay && batch[i] == "none":
-								f = "gen"
-							case batch[i] == "ctx":
-								// For: exactly the configured duration; Until: the duration left when Until() was called
-								if (ctxKind == "for" || ctxKind == "for-zero") && d == ctxFor {
-									f = "ctx"
-								}
-								if (ctxKind == "until-future" || ctxKind == "until-past") && d <= ctxFor && d >= ctxFor-5*time.Second {
-									f = "ctx"
-								}
-							}
-							from = append(from, f)
-							// delayed-until minus delayed-for is the stamping instant (second resolution); metadata pre-set earlier is exempt
-							if f != "meta" {
-								inst := u.Add(-d)
-								if inst.Before(before.Add(-6*time.Second)) || inst.After(after.Add(2*time.Second)) {
-									agree = false
-								}
-							}
-						}
-					}
-					r.Emit("delaypub", "cfg", map[string]any{"gen": gen, "allow": allow, "inner": inner}, "batch", batch, "err", perr != nil, "calls", len(calls),
-						"order", order, "from", from, "agree", agree, "ctxkind", ctxKind)
+					msgs, stamps := build(batch, ctxKind)
+					pubAndJudge(dp, ip, msgs, stamps, batch, ctxKind, map[string]any{"gen": gen, "allow": allow, "inner": inner})
 					n++
 				}
 			}
@@ -354,13 +403,54 @@ func c20Stacks(r *tr.Run, c *Ctx) int {
 					ok = false
 				}
 			}
+			// the inner subscriber's Close takes its time and still hands out messages meanwhile (it waits until they have
+			// arrived); the consumer keeps reading: they pass through like any other
+			nlate := 0
+			if nmsg == 2 {
+				nlate = 2
+				lateGot := make(chan *message.Message, nlate)
+				go func() {
+					for m := range ch {
+						m.Ack()
+						lateGot <- m
+					}
+				}()
+				is.OnCloseStart = func() {
+					for i := 0; i < nlate; i++ {
+						lm := message.NewMessage(fmt.Sprintf("late%d", i), []byte("x"))
+						inner = append(inner, lm)
+						if !is.Emit("t", lm) {
+							return
+						}
+						select {
+						case got := <-lateGot:
+							if got.UUID == lm.UUID && scripted.SettleState(lm) == "ack" {
+								received++
+							} else {
+								order = false
+							}
+						case <-time.After(HangBound / 2):
+							return
+						}
+					}
+				}
+			}
 			closed := make(chan struct{})
 			go func() { defer close(closed); _ = sub.Close() }()
 			if !WaitOrHang(closed) {
 				r.Emit("hung", "what", "decorated subscriber Close")
 			}
 			cancel()
-			r.Emit("substack", "stack", st, "depth", len(st), "n", nmsg, "received", received, "order", order, "applied", ok, "settles", settles, "closes", is.CloseCalls())
+			ok = true
+			for _, m := range inner {
+				mu.Lock()
+				a := applied[m.UUID]
+				mu.Unlock()
+				if len(a) != ntrans || !sort.IntsAreSorted(a) {
+					ok = false
+				}
+			}
+			r.Emit("substack", "stack", st, "depth", len(st), "n", nmsg+nlate, "received", received, "order", order, "applied", ok, "settles", settles, "closes", is.CloseCalls())
 			n++
 		}
 	}
